@@ -128,7 +128,7 @@ fn gen(seed: u64, family: &str, tier: Tier) -> Case {
             json!({"type": "combined", "models": ms})
         }
     };
-    let pc = PluginChoice { grid: false, lb: None, inject: false, rtree: false };
+    let pc = PluginChoice { override_heavy: false, grid: false, lb: None, inject: false, rtree: false };
     let nq = r.range(1, 10) as usize;
     let mut batch = vec![];
     for qid in 0..nq {
